@@ -10,7 +10,19 @@ sys.path.insert(0, os.path.dirname(os.path.abspath(__file__)))
 import build_unit as bu  # noqa: E402
 
 VERIF = bu.VERIF
-BUILD = os.path.join(VERIF, 'build')
+# one build directory per process: concurrent checks (or a developer run next to a background run) must never read each
+# other's generated unit files
+BUILD = os.path.join(VERIF, 'build', 'run_%d' % os.getpid())
+
+
+def _cleanup_build():
+    import shutil
+    if os.environ.get('VERIF_KEEP_BUILD') != '1':
+        shutil.rmtree(BUILD, ignore_errors=True)
+
+
+import atexit  # noqa: E402
+atexit.register(_cleanup_build)
 
 VERIF_FAIL = re.compile(
     r'postcondition not satisfied|precondition not satisfied|invariant not satisfied|assertion failed|'
